@@ -38,7 +38,9 @@ func New(opts Options) *Formatter {
 
 // Format parses and re-formats a SQL string.
 func (f *Formatter) Format(sql string) (string, error) {
-	if strings.TrimSpace(sql) == "" {
+	// (a blank input above the size limit is refused by the tokenizer below,
+	// like every other input of that size)
+	if len(sql) <= tokenizer.MaxInputSize && strings.TrimSpace(sql) == "" {
 		return "", nil
 	}
 
